@@ -138,13 +138,62 @@ def run(ctx):
     ctx.cov["recorded_random"] += len(traces)
     ctx.sample({"job_mode": jobs[1]["mode"], "events": traces[1]["events"][:6]})
     validate(ctx, traces, "files")
+    numbering(ctx)
     ctx.assumptions += ["datetime.now and Path.mkdir are wrapped in the harness process to force TLC's schedules on real threads",
                         "lossless formats (npy, fits) are read back and compared bit for bit (dtype kind and width; FITS is "
                         "big-endian); for jpg only existence is checked"]
 
 
+PRES = [[], [1], [2], [9], [1, 2, 3], [8, 9], [10], [9, 10], [99], [3, 11], [1, 10, 100]]
+
+
+def _corrupt_nb(tr):
+    if tr["events"] and tr["events"][-1]["contents"]:
+        tr["events"][-1]["contents"][-1] += 1
+        return tr
+    return None
+
+
+def validate_nb(ctx, traces, label):
+    stripped = [{"pre": t["pre"], "events": [{k: v for k, v in ev.items() if k != "exc"} for ev in t["events"]]} for t in traces]
+    rejected = ctx.validate("NumberingTrace", stripped, label=label, corrupt=_corrupt_nb)
+    seen = set()
+    for k, l in rejected:
+        job = traces[k]["case"]["job"]
+        evs = traces[k]["events"]
+        ev = evs[min(l, len(evs)) - 1] if evs else {}
+        if ev.get("out") == "harness-error":
+            raise tlc.MachineryError(f"numbering job failed: {ev.get('exc')}")
+        if job["how"] in seen:
+            continue
+        seen.add(job["how"])
+        ctx.violation("files.numbering", f"automatically numbered saves ({job['how']}) into a folder holding the numbers "
+                      f"{job['pre']}: save {min(l, len(evs))} of {job['nsaves']} -> {ev.get('out')} {ev.get('exc', '')} number "
+                      f"{ev.get('n')}; the folder then holds {ev.get('listing')} with contents {ev.get('contents')} "
+                      f"(0 = was there before, k = written by save k)", traces[k]["case"], {"how": job["how"]})
+
+
+def numbering(ctx):
+    """PyxelNumbering: automatically numbered files (one per readout in the legacy entry points)."""
+    res = tlc.check_model("MC_Numbering", tag="C19_numbering", cfg="MC_Numbering.cfg")
+    if res.violated:
+        raise tlc.MachineryError(f"MC_Numbering violates {res.violated}")
+    ctx.add_model_check("MC_Numbering.cfg", res, "11 folder contents x up to 13 saves")
+    jobs = [{"how": how, "pre": pre, "nsaves": n} for pre in PRES for how in ("npy", "txt") for n in (3, 13)]
+    jobs += [{"how": "exposure", "pre": [], "nsaves": n} for n in (1, 2, 9, 10, 11, 12, ctx.pick(21, 101))]
+    traces = check.pmap(outputs.numbering_job, jobs, chunksize=2)
+    ctx.cov["replayed_cases"] += len(traces)
+    ctx.notes["numbering_histories"] = len(traces)
+    validate_nb(ctx, traces, "numbering")
+
+
 def replay(ctx, payload):
     case = payload["case"]
+    if case["kind"] == "numbering":
+        tr = outputs.numbering_job(case["job"])
+        print(json.dumps(tr["events"])[:3000])
+        validate_nb(ctx, [tr], "replay")
+        return ctx.finish()
     if case["kind"] == "sched":
         tr = outputs.schedule_job(case["case"])
     elif case["kind"] == "race":
